@@ -128,6 +128,28 @@ def gen_plan(rng, cfg, tier):
     else:
       ops.append(['advance', rng.choice([0.0, 0.5, 1.0, 1.0, 2.0, 5.0, 10.0, 30.0, 60.0, float(fmax),
                                          7.0 * fmax, 1000.0])])
+  if rng.random() < 0.15:
+    # a backfill burst (more old intervals than are kept), a gap of about the retention
+    # length, then the series resumes: two values for one interval with a flush in between,
+    # around the flush in which the burst's buffers expire
+    mx = cfg['settings']['MAX_AGGREGATION_INTERVALS']
+    cands = []
+    for line in cfg['files']['aggregation-rules.conf'].splitlines():
+      pat = line.split()[-1] if '=' in line else None
+      if pat in MATCHING and '(' in line:
+        cands.append((int(line.split('(')[1].split(')')[0]), MATCHING[pat]))
+    if cands:
+      f, pool = rng.choice(cands)
+      nm = rng.choice(pool)
+      pre = [['advance', f * rng.choice([0.5, 0.5, 0.3, 0.7])]]
+      for k in range(rng.randint(mx + 2, mx + 5), 0, -1):
+        pre.append(['dp', nm, -float(k * f), 'int', float(k)])
+      pre.append(['advance', f * (mx + rng.choice([1.6, 1.6, 0.6, 2.6]))])
+      pre.append(['dp', nm, 0.0, 'int', 5.0])
+      pre.append(['advance', f * rng.choice([0.5, 0.5, 0.3])])
+      pre.append(['dp', rng.choice(pool), 0.0, 'int', 7.0])
+      pre.append(['advance', float(f)])
+      ops = pre + ops
   if rng.random() < 0.25:
     # the rules file is edited under the running aggregator: same aggregate names,
     # other methods / frequencies (picked up by the 10 s reload, which clears all buffers)
